@@ -313,7 +313,7 @@ contract(MF, MFD + "._update_infos", props=["C04", "C06", "C09", "C16", "C05"], 
         ("C04", "forall(lambda j: implies(0 <= j and j < _k, INFO_EXACT(self._dataset.path, ALGS(self._dataset), self._updated_infos[j])"
                 "  and self._updated_infos[j].shard_list_info_file.file_path == FCTX(self)._shards_lists[dictkey(FCTX(self)._shards_lists, j)].relative_path_self))"),
     ], frame={"DatasetFiller._updated_infos": ["self"], "DatasetFiller._dataset": [], "DatasetFiller._dataset_filler_context": [],
-              "ShardsList.shard_files": [], "ShardsList.number_of_examples": []})})
+              "ShardsList.shard_files": [], "ShardsList.number_of_examples": [], "DatasetInfo.splits": []})})
 
 # ---- whole-tree well-formedness (the representation invariant of C04/C05/C06/C08) -----
 # WFT(d, info): info is exact for its list file and so is every child entry below it
